@@ -1565,6 +1565,12 @@ theorem suspend_pstep {i : Frid} {f : Fid} (hf : (P.frame f).framer = i) {needs 
   have tr := wf.donePre f _ hp
   simp only [PreactDoneOnly, hf] at tr
   unfold suspend at h
+  by_cases hpl : (P.frame f).auxes.contains aux = true
+  · -- also a plain auxiliary of the frame: the clause does nothing (excluded by `WF.nodup` anyway)
+    rw [if_pos hpl] at h
+    simp only [Except.ok.injEq, Prod.mk.injEq] at h
+    rw [← h.2]; exact PStep.refl _ _
+  rw [if_neg hpl] at h
   by_cases hd : (s.fr aux).done = true
   · simp only [hd, if_true] at h
     exact suspendStart_pstep wf hlo c tr hd h
